@@ -900,11 +900,14 @@ def make_pipeline_from_args(  # noqa: C901
                 paths = paths[:1]
             else:
                 interleaved = False
-            steps.append(
-                PairedEndSink(
-                    outfiles.open_record_writer(*paths, interleaved=interleaved)
+            if args.output is None and interleaved:
+                # Interleaved output to standard output; honor --fasta
+                writer = outfiles.open_stdout_record_writer(
+                    interleaved=True, force_fasta=args.fasta
                 )
-            )
+            else:
+                writer = outfiles.open_record_writer(*paths, interleaved=interleaved)
+            steps.append(PairedEndSink(writer))
         else:
             if args.output is None:
                 out = outfiles.open_stdout_record_writer(
